@@ -13,6 +13,12 @@ template <class R> struct VNode : R::template enable_concurrent_ptr<VNode<R>> { 
 
 struct KeyI { using type = int; static type mk(long k) { return (int)k; } static long id(const type& k) { return k; } };
 struct KeyS { using type = std::string; static type mk(long k) { return "k" + std::to_string(k); } static long id(const type& k) { return atol(k.c_str() + 1); } };
+// a key whose comparison can throw (armed by the op fndx): an exception must not leave a bucket locked (C11: "iterator use leaves the map fully usable")
+static thread_local bool g_throw_cmp = false;   // per thread: only the find() of the arming thread throws
+struct ThrowingKey { std::string s;
+  friend bool operator==(const ThrowingKey& a, const ThrowingKey& b) { if (g_throw_cmp) { g_throw_cmp = false; throw std::runtime_error("key comparison"); } return a.s == b.s; }
+  friend bool operator!=(const ThrowingKey& a, const ThrowingKey& b) { return !(a == b); } };
+struct KeyT { using type = ThrowingKey; static type mk(long k) { return ThrowingKey{"k" + std::to_string(k)}; } static long id(const type& k) { return atol(k.s.c_str() + 1); } };
 struct ValI { template <class R> using type = int; template <class R> static int mk(long v) { return (int)v; }
   template <class A> static long of_acc(A& a) { return *a; } template <class V> static long of_it(const V& v) { return v; } static constexpr bool managed = false; };
 struct ValS { template <class R> using type = std::string; template <class R> static std::string mk(long v) { return std::to_string(v); }
@@ -42,6 +48,11 @@ xv::Scenario make_scn(const drv::Program& p) {
     }
     else if (n == "get") { xv::call("xget", k); accessor acc; bool ok = s.try_get_value(K::mk(k), acc); long v = ok ? V::of_acc(acc) : 0; xv::ret(ok, v); }
     else if (n == "fnd") { xv::call_blocking("find", k); auto it = s.find(K::mk(k)); bool ok = it != s.end(); long v = ok ? V::of_it((*it).second) : 0; it.reset(); xv::ret(ok, v); }
+    else if (n == "fndx") {   // find() whose key comparison throws: the exception reaches the caller, afterwards the bucket must be usable
+      xv::call_blocking("find", k); g_throw_cmp = true;
+      try { auto it = s.find(K::mk(k)); bool ok = it != s.end(); long v = ok ? V::of_it((*it).second) : 0; it.reset(); g_throw_cmp = false; xv::ret(ok, v); }
+      catch (const std::runtime_error&) { g_throw_cmp = false; xv::ev("abort", "exception"); }
+    }
     else if (n == "fer") {
       xv::call_blocking("find", k); auto it = s.find(K::mk(k)); bool ok = it != s.end(); long v = ok ? V::of_it((*it).second) : 0; xv::ret(ok, v);
       if (ok) { xv::call_blocking("it_erase", k); s.erase(it); it.reset(); xv::ret(0, 0); }
@@ -115,6 +126,7 @@ int main(int argc, char** argv) {
         if (mode == "ii") return by_hash<R, KeyI, ValI>(p, h);
         if (mode == "is") return by_hash<R, KeyI, ValS>(p, h);
         if (mode == "si") return by_hash<R, KeyS, ValI>(p, h);
+        if (mode == "ti") return by_hash<R, KeyT, ValI>(p, h);
         if (mode == "im") return by_hash<R, KeyI, ValM>(p, h);
         if (mode == "sm") return by_hash<R, KeyS, ValM>(p, h);
       }
